@@ -350,6 +350,7 @@ def extra(ctx):
         if c is None:
             continue
         m = next(it)
+        if vlib.timed_out(ctx, m): continue
         if m.strip() != '1':
             bad.append((ln, c, 'model rejects the certificate: ' + m[:80]))
         nb += 1
